@@ -1302,7 +1302,9 @@ def coverage(ctx, next_cases, run_cases, act_cases, rj_next, rj_run, rj_act, fac
     cov["distinct_nontrivial"] = len(nontriv)
     cov["rule"] = ("function level: generated (spec list <= 3, now, startup) triples, now placed on / 1 us around / far from a denoted instant "
                    "over 2019-03-01..2021-03-01 (America/Los_Angeles; DST days, leap day, month/year ends over-sampled); non-trivial = a next "
-                   "instant exists; distinct by (texts, now, startup).  behaviour level: running @time_trigger scenarios with >= 1 timed run.  "
+                   "instant exists; distinct by (texts, now, startup).  behaviour level: running @time_trigger scenarios with >= 1 timed run "
+                   "(family mix: the function also has @state_trigger [state_hold / state_hold_false / state_check_now] and / or @event_trigger, "
+                   "stimuli applied between and around the instants).  "
                    "windows: (list <= 4, t, startup) with t at end points +- 1 us; non-trivial = active")
     cov["next"] = {"cases": len(next_cases), "masked_space": len(masked), "masked_rejected": sum(1 for c in masked if c["id"] in rj_next),
                    "unmasked_space": len(next_cases) - len(masked), "unmasked_rejected": sum(1 for c in next_cases if not c["masked"] and c["id"] in rj_next),
@@ -1312,9 +1314,11 @@ def coverage(ctx, next_cases, run_cases, act_cases, rj_next, rj_run, rj_act, fac
                    "now_on_dst_day": sum(1 for c in next_cases if _on_dst_day(c)),
                    "fold1": sum(1 for c in next_cases if c["now"]["fold"] == 1),
                    "now_equals_startup": sum(1 for c in next_cases if c["now"]["t"] == c["startup"])}
+    def in_mask(c):            # a mix rejection is in the masked space unless TLC places it in the input class of a known finding
+        return c["masked"] and not (c["kind"] == "mix" and rj_run.get(c["id"], {}).get("at", "elsewhere") != "elsewhere")
     cov["run"] = {"scenarios": len(run_cases), "timed_runs": sum(len(c["runs"]) for c in run_cases),
-                  "masked_space": sum(1 for c in run_cases if c["masked"]), "masked_rejected": sum(1 for c in run_cases if c["masked"] and c["id"] in rj_run),
-                  "unmasked_rejected": sum(1 for c in run_cases if not c["masked"] and c["id"] in rj_run),
+                  "masked_space": sum(1 for c in run_cases if c["masked"]), "masked_rejected": sum(1 for c in run_cases if in_mask(c) and c["id"] in rj_run),
+                  "unmasked_rejected": sum(1 for c in run_cases if not in_mask(c) and c["id"] in rj_run),
                   "families": _count(c["family"] for c in run_cases), "legacy": sum(1 for c in run_cases if c["legacy"]),
                   "startup_entries": sum(1 for c in run_cases if c["wantStartup"]), "shutdown_entries": sum(1 for c in run_cases if c["wantShutdown"])}
     cov["active"] = {"cases": len(act_cases), "active": sum(1 for c in act_cases if c["obs"] == "T"), "rejected": len(rj_act),
@@ -1336,6 +1340,7 @@ def coverage(ctx, next_cases, run_cases, act_cases, rj_next, rj_run, rj_act, fac
         "unspecified and therefore nondeterministic in TimeSpec: reference day of today/tomorrow; time scale of equal spacing of a dated period() across a clock change (docs: elapsed, repository tests: wall clock); now = startup coinciding with an instant of a non-now form",
         "not generated: period() with weekday/yearless start or mixed start/end kinds; sub-second period intervals; weekday-based range(); evaluation times inside the skipped hour; once()/period() instants of running triggers inside the skipped or repeated hour; 'startup' listed next to a zero-offset now form",
         "running triggers: the virtual wall clock advances by 1 us per reading at an unchanged loop time (a real clock never returns the same reading twice); runs are accepted within 1 ms of the instant",
+        "functions with other trigger sources next to @time_trigger (family mix): only the time runs are judged strictly (exactly the denoted instants, whatever woke the loop up); a state / event run only needs a cause among the applied stimuli (which of them happen is C05's automaton); @mqtt_trigger / @webhook_trigger, @state_active / @time_active next to the sources, task.wait_until and clock changes inside such a scenario are not generated; in these scenarios the loop clock advances by 1 ps per reading at an unchanged virtual time (the default subsystem's state_hold loop does not yield while its timer is a rounding error early)",
     ]
 
 
